@@ -1771,14 +1771,18 @@ func mediaNameFormats(p *Program, sl *slicer) []nameFormat {
 			if cal == nil || !p.inModule(cal) || cal.Signature.Results().Len() != 1 || !isStringType(cal.Signature.Results().At(0).Type()) {
 				continue
 			}
-			// a namer: a string-valued helper that is handed a number
-			hasInt := false
+			// a namer: a string-valued helper that is handed a number — not the relationship-id
+			// allocator (it is handed the list it scans), whose result is an id, not a part name
+			hasInt, takesRels := false, false
 			for _, par := range cal.Params {
 				if b, ok := par.Type().Underlying().(*types.Basic); ok && b.Info()&types.IsInteger != 0 {
 					hasInt = true
 				}
+				if sl, ok := par.Type().Underlying().(*types.Slice); ok && typeIs(sl.Elem(), pkgDoc, "Relationship") {
+					takesRels = true
+				}
 			}
-			if hasInt {
+			if hasInt && !takesRels {
 				scan(cal, 1)
 			}
 		}
